@@ -109,10 +109,33 @@ def assemble(edges, kinds, rng, exhaustive_orient=None):
     return comps
 
 
+def random_structures(n_nodes, n_comp, passive, sources, rng, count, max_sources):
+    """seeded random (edges, kinds) draws for sizes whose product space cannot be enumerated: random spanning tree + extra edges"""
+    nodes = cirlib.node_names(n_nodes)
+    out = []; seen = set()
+    tries = 0
+    while len(out) < count and tries < count * 30:
+        tries += 1
+        order = nodes[:]; rng.shuffle(order)
+        edges = [(order[k], order[rng.randrange(k)]) for k in range(1, n_nodes)]
+        while len(edges) < n_comp:
+            a, b = rng.sample(nodes, 2); edges.append((a, b))
+        rng.shuffle(edges)
+        ns = rng.randint(1, max_sources)
+        pos = set(rng.sample(range(n_comp), ns))
+        ks = tuple(rng.choice(sources) if i in pos else rng.choice(passive) for i in range(n_comp))
+        key = (tuple(edges), ks)
+        if key in seen: continue
+        seen.add(key); out.append((edges, ks))
+    return out
+
+
 def gen(n_nodes, n_comp, passive, sources, rng, sample=None, max_sources=2):
     out = []
     nodes = cirlib.node_names(n_nodes)
-    for edges in cirlib.multigraphs(n_nodes, n_comp):
+    if sample is not None and (len(passive) + len(sources)) ** n_comp > 400000:
+        out = random_structures(n_nodes, n_comp, passive, sources, rng, sample, max_sources)
+    for edges in (cirlib.multigraphs(n_nodes, n_comp) if not out else ()):
         for ks in itertools.product(passive + sources, repeat=n_comp):
             ns = sum(1 for k in ks if k in sources)
             if ns == 0 or ns > max_sources: continue
